@@ -1160,6 +1160,34 @@ func fieldOfAddr(base ssa.Value, i int, at ssa.Instruction, d int) ([]originVal,
 	}
 	al, ok := base.(*ssa.Alloc)
 	if !ok {
+		if nfa, isNested := base.(*ssa.FieldAddr); isNested {
+			// a struct kept in a field of another struct (r.plan.PrunedIDs): the whole values stored into the outer field
+			outer, ok := fieldOfAddr(nfa.X, nfa.Field, at, d+1)
+			if !ok {
+				return nil, false
+			}
+			var out []originVal
+			for _, o := range outer {
+				sub, ok := fieldOfStructValue(o.V, i, o.At, d+1)
+				if !ok {
+					return nil, false
+				}
+				for k := range sub {
+					if len(o.E) > 0 {
+						ne := env{}
+						for pk, pv := range o.E {
+							ne[pk] = pv
+						}
+						for pk, pv := range sub[k].E {
+							ne[pk] = pv
+						}
+						sub[k].E = ne
+					}
+				}
+				out = append(out, sub...)
+			}
+			return out, true
+		}
 		if u, isLoad := base.(*ssa.UnOp); isLoad && u.Op == token.MUL {
 			// pointer kept in a local: follow single-store cells
 			if r := resolve(u); r != ssa.Value(u) {
@@ -1237,6 +1265,17 @@ func fieldOfAddr(base ssa.Value, i int, at ssa.Instruction, d int) ([]originVal,
 							out = append(out, originVal{V: z.Val, At: z})
 						}
 					case *ssa.UnOp, *ssa.DebugRef:
+					case *ssa.FieldAddr:
+						// a field of the struct kept in this field: fine while it is only read there
+						if z.Referrers() != nil {
+							for _, zz := range *z.Referrers() {
+								switch zz.(type) {
+								case *ssa.UnOp, *ssa.DebugRef:
+								default:
+									return nil, false
+								}
+							}
+						}
 					default:
 						return nil, false // address of the field escapes
 					}
